@@ -94,6 +94,18 @@ Eighth round (h) - changes whose breakage needs a repeated or later occurrence (
 * **C10-h** (a sticky "disconnect requested" flag): the client object now has a history before the connection that is lost - a disconnect() while idle, or a full connect / disconnect cycle.
 * **C13-h** (handler resolution memoised, invalidated only for the key being registered): after the first event a function handler of higher precedence is registered under a different key and the event is sent again.
 * **C20-h** (pending-disconnect list created with the namespace but deleted when it empties): the namespace has already seen another client come and be disconnected before the concurrent terminations start.
+
+Ninth round (i) - changes that bite only when something fails at the transport boundary (a send that finds the peer gone, a loss in the middle of a multi-step exchange, engine.io tearing a connection down re-entrantly inside a send). 10 of 18 missed at first; 8 reported after strengthening, 2 not claimed:
+
+* **C02-i** (a half-received binary packet survives an *automatic* reconnection): the clause is C08's ("no ... half-received binary packet survives into the next connection"); C08 has a new scenario with a reconnecting client (losses in mid-packet, with callbacks outstanding; after each automatic reconnection the namespace list, the connect / disconnect handler counts, stale ACKs and a probe event with bytes on every namespace are checked). Reported by C08.
+* **C06-i** (disconnect() returns early when the transport died inside its send): C06 now kicks a silent client after its ping has expired with an ACK of that client in flight (before or after the kick); a callback that runs after disconnect() has returned is reported. (C04, C11 and C20 report the same change by its other effects.)
+* **C08-i** (connect() no longer resets the namespace list): the server's answer to a CONNECT and the loss of the transport reach the client in the same instant (new net hook: a loss placed right behind a given frame), under free thread schedules; the next connection must not show the old session id. This found two defects of the unchanged tree - one repaired (a428cdc), one a known finding (see DESIGN B.3).
+* **C10-i** (namespace list reset only when `connected`): a new outcome for a reconnection attempt - the transport is lost while the application's connect handler is still running - which is a failed attempt like any other.
+* **C13-i** (KeyError from a class-based handler read as "no namespace here"): the chosen target raises (KeyError, LookupError, AttributeError, TypeError, ValueError): nothing else may run.
+* **C16-i** (a shared stand-in session for clients whose transport has gone): late writes (save_session / session() block) and reads under session ids that have ended; a read that returns another client's data, or anything at all, is reported.
+* **C18-i** (byte counting in the instrumented websocket wrapper fails on a closed websocket): new wire peers on the long-polling transport (sim/poll.py) that start a websocket upgrade and abandon it before or after the probe; the twin comparison shows the instrumented server's client stuck behind NOOPs.
+* **C19-i** (emit()/call() give up when `client.connected` is false): a reconnection that takes several attempts (nothing answers for 3 s) with a call() waiting for its answer when the connection goes, and a pre-emption point between the connected-wait and what follows it.
+* **C07-i, C14-i** need engine.io's `send()` to raise; the engine.io that runs for real in the simulation (and in deployments with this pin) never does on asyncio - not claimed (see the table).
 """
 
 
